@@ -33,17 +33,28 @@ def state_key(st, skip=()):
     return norm({k: v for k, v in st.items() if k not in skip})
 
 
+class EPath(list):
+    """A path through a dumped graph: the list of node ids, plus `labs`, the labels of the edges
+    taken (parallel edges between the same two states carry different action parameters, so the node
+    ids alone do not determine the actions)."""
+    labs = None
+
+    def __init__(self, nodes, labs):
+        list.__init__(self, nodes)
+        self.labs = list(labs)
+
+
 def paths_dfs(g, max_depth, max_noop=0, limit=None, skip=()):
     """Every path from an initial node up to max_depth edges, with at most max_noop edges that do
-    not change the state (ignoring `act`).  Yields lists of node ids (first = initial).  Only
+    not change the state (ignoring `act`).  Yields EPaths (first node = initial).  Only
     maximal paths (no extension possible within the bounds) are yielded; their prefixes are
     covered by replaying the path step by step."""
     keys = {n: state_key(s, skip) for n, s in g.nodes.items()}
     count = 0
     for i in g.init:
-        stack = [(i, [i], 0)]
+        stack = [(i, [i], [], 0)]
         while stack:
-            n, path, noop = stack.pop()
+            n, path, labs, noop = stack.pop()
             ext = False
             if len(path) - 1 < max_depth:
                 for lab, d in g.succ.get(n, ()):
@@ -51,16 +62,15 @@ def paths_dfs(g, max_depth, max_noop=0, limit=None, skip=()):
                     if isnoop and noop >= max_noop:
                         continue
                     ext = True
-                    stack.append((d, path + [d], noop + (1 if isnoop else 0)))
+                    stack.append((d, path + [d], labs + [lab], noop + (1 if isnoop else 0)))
             if not ext:
-                yield path
+                yield EPath(path, labs)
                 count += 1
                 if limit and count >= limit:
                     return
 
 
-def edge_cover_paths(g):
-    """For every edge of the graph one path (shortest prefix from an initial node) ending with it."""
+def _bfs_tree(g):
     from collections import deque
     parent = {}
     dq = deque()
@@ -71,33 +81,112 @@ def edge_cover_paths(g):
         n = dq.popleft()
         for lab, d in g.succ.get(n, ()):
             if d not in parent:
-                parent[d] = n
+                parent[d] = (n, lab)
                 dq.append(d)
+    return parent
 
-    def prefix(n):
-        p = []
-        while n is not None:
-            p.append(n)
-            n = parent[n]
-        return p[::-1]
+
+def _prefix(parent, n):
+    nodes, labs = [n], []
+    while parent[n] is not None:
+        n, lab = parent[n]
+        nodes.append(n)
+        labs.append(lab)
+    return nodes[::-1], labs[::-1]
+
+
+def edge_cover_paths(g):
+    """For every edge of the graph (parallel edges included) one path (shortest prefix from an
+    initial node) ending with it."""
+    parent = _bfs_tree(g)
     for n, outs in g.succ.items():
         if n not in parent:
             continue
+        pn, pl = _prefix(parent, n)
         for lab, d in outs:
-            yield prefix(n) + [d]
+            yield EPath(pn + [d], pl + [lab])
+
+
+def edge_cover_tours(g, maxlen=40):
+    """Edge cover with few, long paths: each tour starts at an initial node (reached edges first),
+    prefers an edge not yet covered, otherwise moves to the nearest state that still has one, and
+    ends after maxlen edges or when no uncovered edge is reachable.  Every reachable edge, parallel
+    edges included, lies on at least one tour."""
+    from collections import deque
+    parent = _bfs_tree(g)
+    todo = {n: list(range(len(outs))) for n, outs in g.succ.items() if n in parent and outs}
+    todo = {n: v for n, v in todo.items() if v}
+
+    def nearest(src):
+        """shortest (nodes, labs) from src to a state with an uncovered out-edge, or None"""
+        if src in todo:
+            return [src], []
+        seen = {src: None}
+        dq = deque([src])
+        while dq:
+            n = dq.popleft()
+            for lab, d in g.succ.get(n, ()):
+                if d in seen:
+                    continue
+                seen[d] = (n, lab)
+                if d in todo:
+                    nodes, labs = [d], []
+                    while seen[d] is not None:
+                        d, lab2 = seen[d]
+                        nodes.append(d)
+                        labs.append(lab2)
+                    return nodes[::-1], labs[::-1]
+                dq.append(d)
+        return None
+    while todo:
+        # start: the initial node from which an uncovered edge is nearest (else a BFS prefix)
+        start = None
+        for i in g.init:
+            r = nearest(i)
+            if r is not None and (start is None or len(r[1]) < len(start[1])):
+                start = r
+        if start is None:
+            n = next(iter(todo))
+            start = _prefix(parent, n)
+        nodes, labs = list(start[0]), list(start[1])
+        progressed = False
+        while True:
+            n = nodes[-1]
+            if n in todo:
+                k = todo[n].pop()
+                if not todo[n]:
+                    del todo[n]
+                lab, d = g.succ[n][k]
+                nodes.append(d)
+                labs.append(lab)
+                progressed = True
+                if len(labs) >= maxlen:
+                    break
+                continue
+            if len(labs) >= maxlen:
+                break
+            r = nearest(n)
+            if r is None or len(labs) + len(r[1]) >= maxlen + 10:
+                break
+            nodes.extend(r[0][1:])
+            labs.extend(r[1])
+        if not progressed:      # cannot happen (start ends at a state with an uncovered edge)
+            break
+        yield EPath(nodes, labs)
 
 
 def random_walks(g, num, depth, rng):
     for _ in range(num):
         n = rng.choice(g.init)
-        p = [n]
+        p, labs = [n], []
         for _ in range(depth):
             outs = g.succ.get(n)
             if not outs:
                 break
-            n = rng.choice(outs)[1]
+            lab, n = rng.choice(outs)
             p.append(n)
-        yield p
+            labs.append(lab)
+        yield EPath(p, labs)
 
 
 # ----------------------------------------------------------------------------------------------
@@ -343,6 +432,8 @@ def diff_states(model, impl):
 
 
 def path_actions(g, p):
+    if isinstance(p, EPath):
+        return list(p.labs)
     acts = []
     node = p[0]
     for nxt in p[1:]:
